@@ -88,6 +88,13 @@ func (x *Exec) stmt(st *State, s ast.Stmt, k cont) {
 						st.vars[obj] = x.convertAssign(vals[i], obj.Type())
 					} else {
 						st.vars[obj] = x.zero(st, obj.Type())
+						if isSyncType(obj.Type()) {
+							// a freshly declared WaitGroup / Mutex starts with zero counters
+							id := OpaqueV{T: x.eng.addrOf(x, obj), Typ: obj.Type()}
+							x.ghostSet(st, "added", id, Int(0))
+							x.ghostSet(st, "done", id, Int(0))
+							x.ghostSet(st, "locked", id, TFalse)
+						}
 					}
 				}
 			}
